@@ -75,6 +75,27 @@ def parse_kani(out):
     return checks, (int(summary.group(1)), int(summary.group(2))) if summary else None, verdict.group(1) if verdict else None, float(t.group(1)) if t else None
 
 
+def run_group(cmd, cwd, env, timeout):
+    """run a command in its own process group; on timeout kill the whole group (cargo-kani leaves cbmc / z3
+    children behind otherwise)"""
+    import signal
+    p = subprocess.Popen(cmd, cwd=cwd, env=env, stdout=subprocess.PIPE, stderr=subprocess.STDOUT, text=True,
+                         start_new_session=True)
+    try:
+        out, _ = p.communicate(timeout=timeout)
+        return out, p.returncode
+    except subprocess.TimeoutExpired:
+        try:
+            os.killpg(p.pid, signal.SIGKILL)
+        except OSError:
+            pass
+        try:
+            out, _ = p.communicate(timeout=10)
+        except Exception:  # noqa
+            out = ''
+        return (out or '') + '\nTIMEOUT', -9
+
+
 def run_harness(ws, cfg, h, log_dir):
     flags = ['-Z', 'function-contracts', '-Z', 'stubbing'] + h.get('flags', [])
     # NB: --harness must precede flags: `--cbmc-args` swallows everything after it
@@ -82,14 +103,7 @@ def run_harness(ws, cfg, h, log_dir):
     env = dict(os.environ, CARGO_NET_OFFLINE='true')
     shell = 'ulimit -v %d; exec %s' % (MEM_KB, ' '.join("'%s'" % c for c in cmd))
     t0 = time.time()
-    try:
-        p = subprocess.run(['bash', '-c', shell], cwd=ws, env=env, capture_output=True, text=True,
-                           timeout=h.get('timeout', 900))
-        out = p.stdout + '\n' + p.stderr
-        rc = p.returncode
-    except subprocess.TimeoutExpired as e:
-        out = ((e.stdout or b'').decode('utf-8', 'replace') if isinstance(e.stdout, bytes) else (e.stdout or '')) + '\nTIMEOUT'
-        rc = -9
+    out, rc = run_group(['bash', '-c', shell], ws, env, h.get('timeout', 900))
     wall = time.time() - t0
     if log_dir:
         open(os.path.join(log_dir, re.sub(r'\W+', '_', h['name']) + '.log'), 'w').write(out)
